@@ -88,15 +88,81 @@ def run(ctx, rep):
     rep.instance(R1, ok=ok, nontrivial='HtmlTranslator-defaults')
     if not ok:
         rep.finding(R1, 'C19.R1/HtmlTranslator/defaults', m.relfile(h.module), 'HtmlTranslator', 'no default visitor/departer fallback')
-    dv = m.func(DOCTREE, 'NodeVisitor.dispatch_visit')
-    ok = 'self.find_visitor(node)' in astq.u(dv) and 'raise NotImplementedError' in astq.u(dv)
-    rep.instance(R1, ok=ok, nontrivial='dispatch_visit')
-    wk = m.func(NODES, 'Node.walk')
-    txt = astq.u(wk)
-    ok = 'except SkipDeparture' in txt and 'except SkipNode' in txt and 'for child in self.children[:]' in txt
-    rep.instance(R1, ok=ok, nontrivial='Node.walk')
-    if not ok:
-        rep.finding(R1, 'C19.R1/Node.walk', m.loc(NODES, wk), 'Node.walk', 'walk no longer honours SkipDeparture/SkipNode and visits every child')
+    # Node.walkabout / walk and the visitor dispatch folded over a mock tree: visit parent first, children in order, depart last;
+    # SkipDeparture drops the departure only, SkipNode drops children and departure; an element without a visitor method is
+    # NotImplementedError for the strict visitor and goes to default_visitor / default_departer for the default one
+    from ..bind import bound_class
+    from ..minieval import Interp as _Iw, Raised as _Rw
+
+    class SkipDepartureM(Exception):
+        pass
+
+    class SkipNodeM(Exception):
+        pass
+    cons_ = set()
+    itw = _Iw(dict(SkipDeparture=SkipDepartureM, SkipNode=SkipNodeM, NotImplementedError=NotImplementedError, AttributeError=AttributeError),
+              where='proof/writers/doctree Node.walk / NodeVisitor')
+    NodeB = bound_class(m, itw, ClassRef(NODES, 'Node'), only=('walk', 'walkabout'), consulted=cons_)
+    kinds = {k: type(k, (NodeB,), {}) for k in ('alpha', 'beta', 'gamma')}
+
+    def mk(kind, *children):
+        n_ = kinds[kind]()
+        n_.children = list(children)
+        n_.label = kind + str(len(made))
+        made.append(n_)
+        return n_
+    for vis_base in ('NodeVisitor', 'DefaultNodeVisitor'):
+        VB = bound_class(m, itw, ClassRef(DOCTREE, vis_base), consulted=cons_)
+        for skip in (None, 'SkipDeparture', 'SkipNode'):
+            for have_gamma in (True, False):
+                made, log = [], []
+                tree = mk('alpha', mk('beta', mk('gamma'), mk('gamma')), mk('gamma'))
+
+                def visit_beta(s_, n_):
+                    log.append(('visit', n_.label))
+                    if skip == 'SkipDeparture':
+                        raise SkipDepartureM()
+                    if skip == 'SkipNode':
+                        raise SkipNodeM()
+                ns = dict(visit_alpha=lambda s_, n_: log.append(('visit', n_.label)), depart_alpha=lambda s_, n_: log.append(('depart', n_.label)),
+                          visit_beta=visit_beta, depart_beta=lambda s_, n_: log.append(('depart', n_.label)),
+                          default_visitor=lambda s_, n_: log.append(('default-visit', n_.label)), default_departer=lambda s_, n_: log.append(('default-depart', n_.label)))
+                if have_gamma:
+                    ns.update(visit_gamma=lambda s_, n_: log.append(('visit', n_.label)), depart_gamma=lambda s_, n_: log.append(('depart', n_.label)))
+                V = type('V', (VB,), ns)
+                try:
+                    tree.walkabout(V())
+                    err = None
+                except NotImplementedError:
+                    err = 'NotImplementedError'
+                except (_Rw, TypeError, AttributeError) as e:
+                    err = f'{type(e).__name__}: {getattr(e, "text", e)}'
+
+                def ref(n_, out):
+                    kind = type(n_).__name__
+                    strict_missing = kind == 'gamma' and not have_gamma
+                    if strict_missing and vis_base == 'NodeVisitor':
+                        raise NotImplementedError
+                    out.append(('default-visit' if strict_missing else 'visit', n_.label))
+                    if kind == 'beta' and skip == 'SkipNode':
+                        return
+                    for c_ in n_.children:
+                        ref(c_, out)
+                    if not (kind == 'beta' and skip == 'SkipDeparture'):
+                        out.append(('default-depart' if strict_missing else 'depart', n_.label))
+                want = []
+                try:
+                    ref(tree, want)
+                    werr = None
+                except NotImplementedError:
+                    werr = 'NotImplementedError'
+                ok = err == werr and (werr is not None or log == want)
+                case = f'{vis_base}, visit_beta raises {skip}, gamma visitor methods {"present" if have_gamma else "absent"}'
+                rep.instance(R1, ok=ok, nontrivial=('walk', case))
+                if not ok:
+                    rep.finding(R1, f'C19.R1/walk/{case}', m.relfile(NODES), 'Node.walk / NodeVisitor dispatch',
+                                f'{case}: the traversal logs {log} (error {err}); expected {want} (error {werr})')
+    rep.consult(*sorted(cons_))
 
     R2 = rep.rule('C19.R2', 'every string-table key the translators / lexical writer look up exists in every table (or is guarded)')
     pt, st = symtab.load(m)
@@ -215,16 +281,25 @@ def run(ctx, rep):
         rep.instance(R3, ok=ok, nontrivial=(mod, wcls))
         if not ok:
             rep.finding(R3, f'C19.R3/{mod}:{wcls}', m.relfile(mod), wcls, f'registered writer is not a concrete {fmt} writer (format / translator / build_doc / template)')
-    src = m.sources[DOCTREE]
-    for w in ('HtmlTabWriter', 'LatexTabWriter'):
-        ok = f'registry.register({w})' in src
+    # registration (AST): a writer class is registered by `registry.register(Cls)` anywhere in the writers package or by the
+    # decorator form `@registry.register` / `@registry.register(...)`
+    registered = {}
+    for mod in sorted(m.trees):
+        if not mod.startswith(WRITERS):
+            continue
+        for n_ in ast.walk(m.trees[mod]):
+            if isinstance(n_, ast.Call) and isinstance(n_.func, ast.Attribute) and n_.func.attr == 'register' and n_.args and isinstance(n_.args[0], ast.Name):
+                registered.setdefault(n_.args[0].id, m.loc(mod, n_))
+            if isinstance(n_, ast.ClassDef):
+                for d in n_.decorator_list:
+                    f_ = d.func if isinstance(d, ast.Call) else d
+                    if isinstance(f_, ast.Attribute) and f_.attr == 'register':
+                        registered.setdefault(n_.name, m.loc(mod, n_))
+    for w in ('HtmlTabWriter', 'LatexTabWriter', 'TextTabWriter'):
+        ok = w in registered
         rep.instance(R3, ok=ok, nontrivial=('registered', w))
         if not ok:
-            rep.finding(R3, f'C19.R3/registry/{w}', m.relfile(DOCTREE), 'doctree registry', f'{w} is no longer registered')
-    ok = '@registry.register(default=True)\nclass TextTabWriter' in m.sources['pytableaux.proof.writers.jinja']
-    rep.instance(R3, ok=ok, nontrivial='jinja-text-registered')
-    if not ok:
-        rep.finding(R3, 'C19.R3/registry/jinja-text', 'pytableaux/proof/writers/jinja.py', 'jinja registry', 'the plain-text writer is no longer registered')
+            rep.finding(R3, f'C19.R3/registry/{w}', m.relfile(DOCTREE), 'writer registry', f'{w} is no longer registered (registered: {sorted(registered)})')
     mc = m.func(WRITERS, 'TabWriterMeta.__call__')
     rep.consult(m.loc(WRITERS, mc) + ' TabWriterMeta.__call__')
     # folded: TabWriter(fmt, ...) resolves the format in the default registry first, then in any registry; no format -> the default writer
